@@ -1856,8 +1856,10 @@ fn run_foreign(c: &ForeignCase, obs: &mut Obs) -> CheckResult {
         match &run.result {
             Err(_) => {
                 label_once(obs, "client-refused");
+                // (a withdrawal inside a reply to a reset query is the cache's protocol error:
+                // the client may refuse it)
                 ensure!(
-                    c.count as usize > pdu::ProviderAsns::MAX_COUNT,
+                    c.count as usize > pdu::ProviderAsns::MAX_COUNT || c.flags & 1 == 0,
                     "{}: Client::update() failed on a reply the library's own server could have written", what
                 );
             }
